@@ -245,6 +245,9 @@ def effect_signature(prog, body):
 
 
 def check(env, rep, tier):
+    include(rep, env, tier, "c06", ("C06.7",), "C19.11",
+            "'the observe accessor reads the same state as the raw option API': get_observe_value / set_observe_value hand the number "
+            "over unchanged (no mask, no shift)")
     include(rep, env, tier, "c01", ("C01.4",), "C19.10",
             "'whatever a setter stores is what ... the encoded bytes show, whatever was there before': every value in the option map goes "
             "out under its own number (delta from the previous emitted number, an emptied list emits nothing and moves nothing)")
